@@ -475,6 +475,9 @@ func (s *Sess) exec(in ssa.Instruction, st *State) {
 		for i := len(s.defers) - 1; i >= 0; i-- {
 			d := s.defers[i]
 			if !d.Block().Dominates(x.Block()) {
+				if !blockReaches(d.Block(), x.Block()) {
+					continue // this return is taken before the defer statement was reached
+				}
 				s.unsupp("conditional defer")
 				continue
 			}
@@ -745,7 +748,12 @@ func (s *Sess) execSlice(x *ssa.Slice, st *State) {
 			f = and(f, fmt.Sprintf("(<= %s %s)", mx, capT))
 		}
 		s.oblige(st, "slice", name, f, x.Pos(), "slice bounds: "+x.String())
-		s.setVal(x, fmt.Sprintf("(mk-slice (s.base %s) (+ (s.off %s) %s) (- %s %s) (- %s %s))", a.t, a.t, lo, hi, lo, bound, lo), st)
+		nv := s.setVal(x, fmt.Sprintf("(mk-slice (s.base %s) (+ (s.off %s) %s) (- %s %s) (- %s %s))", a.t, a.t, lo, hi, lo, bound, lo), st)
+		if lo != "0" {
+			// bridge element indices of the re-sliced view to those of the original (E-matching aid:
+			// the instance introduces the term (go.ix off (+ lo i)) that facts about the original need)
+			s.assume(fmt.Sprintf("(forall ((i Int)) (! (= (go.ix (s.off %s) i) (go.ix (s.off %s) (+ %s i))) :pattern ((go.ix (s.off %s) i))))", nv.t, a.t, lo, nv.t))
+		}
 	case *types.Basic: // string
 		if hi == "" {
 			hi = fmt.Sprintf("(str.len %s)", a.t)
@@ -924,4 +932,22 @@ func (s *Sess) execNext(x *ssa.Next, st *State) {
 	s.assumeAt(st, fmt.Sprintf("(<= 0 %s)", pos))
 	s.setRegion(st, key, "(Array Int Int)", fmt.Sprintf("(store %s %s (ite %s (+ %s 1) %s))", H, it.t, ok, pos, pos))
 	s.env[x] = Val{parts: []Val{{t: ok, typ: types.Typ[types.Bool]}, {t: k, typ: m.Key()}, {t: v, typ: m.Elem()}}, typ: x.Type()}
+}
+
+func blockReaches(from, to *ssa.BasicBlock) bool {
+	seen := map[*ssa.BasicBlock]bool{}
+	stack := []*ssa.BasicBlock{from}
+	for len(stack) > 0 {
+		b := stack[len(stack)-1]
+		stack = stack[:len(stack)-1]
+		if b == to {
+			return true
+		}
+		if seen[b] {
+			continue
+		}
+		seen[b] = true
+		stack = append(stack, b.Succs...)
+	}
+	return false
 }
